@@ -732,3 +732,30 @@ package appencryption
 //@   opt allow-go
 //@   requires v != nil && istype(v.encryption, *sharedEncryption) && wfShared(dyn(v.encryption, *sharedEncryption)) && *dyn(v.encryption, *sharedEncryption).mu == 0
 //@   ensures [evicted-session-is-handed-to-remove-once] spawned_Remove(dyn(v.encryption, *sharedEncryption)) == old(spawned_Remove(dyn(v.encryption, *sharedEncryption))) + 1
+
+// ================= C03: envelope discipline =================
+// A key's plaintext is only ever visible inside a WithBytes/WithBytesFunc callback (keyof names the secret an array
+// exposes); these contracts pin down which plaintext goes to which encryption call, and what ends up in the records.
+//@ ghost define keysecret(this *cachedCryptoKey) = this.CryptoKey.secret
+
+//@ func (*envelopeEncryption).EncryptPayload
+//@   ensures [C03:fresh-random-data-key-per-encrypt] err == nil ==> retis(GenerateKey, 1, 1, nil) && fresh(ret(GenerateKey, 1, 0)) && fresh(ret(GenerateKey, 1, 0).secret) && randomsecret(ret(GenerateKey, 1, 0).secret) && result.Key.Created == ret(GenerateKey, 1, 0).created && ncalls(GenerateKey) == 1
+//@   ensures [C03:payload-sealed-under-the-fresh-data-key] err == nil ==> ncalls(Encrypt) == 2 && arg(Encrypt, 1, data) == data && keyof(arr(arg(Encrypt, 1, key))) == ret(GenerateKey, 1, 0).secret && result.Data == ret(Encrypt, 1, 0)
+//@   ensures [C03:data-key-wrapped-under-the-partition-s-intermediate-key] err == nil ==> keyof(arr(arg(Encrypt, 2, data))) == ret(GenerateKey, 1, 0).secret && keyof(arr(arg(Encrypt, 2, key))) == ret(GetOrLoadLatest, 1, 0).CryptoKey.secret && result.Key.EncryptedKey == ret(Encrypt, 2, 0) && arg(GetOrLoadLatest, 1, id) == ikidOf(e.partition)
+//@   ensures [C03:no-key-service-call-for-data] ncalls(EncryptKey) == 0 && ncalls(Store) == 0
+
+//@ func (*envelopeEncryption).tryStoreIntermediateKey
+//@   facet C03
+//@   safety C03
+//@   opt no-frame
+//@   requires wfE(e) && ik != nil && sk != nil
+//@   ensures [C03:intermediate-key-wrapped-under-its-system-key] ncalls(Encrypt) == 1 && ncalls(EncryptKey) == 0 && (retis(Encrypt, 1, 1, nil) ==> keyof(arr(arg(Encrypt, 1, data))) == keysecret(ik) && keyof(arr(arg(Encrypt, 1, key))) == keysecret(sk))
+//@   ensures [C03:stored-record-holds-the-wrapped-key-and-names-its-parent] ncalls(Store) == 1 && (ret(Store, 1, 0) == ret(Store, 1, 0) ==> arg(Store, 1, envelope).EncryptedKey == ret(Encrypt, 1, 0) && arg(Store, 1, envelope).ParentKeyMeta != nil && arg(Store, 1, envelope).ParentKeyMeta.ID == sysid(e.partition) && arg(Store, 1, keyID) == ikidOf(e.partition))
+
+//@ func (*envelopeEncryption).tryStoreSystemKey
+//@   facet C03
+//@   safety C03
+//@   opt no-frame
+//@   requires wfE(e) && sk != nil && sk.secret != nil
+//@   ensures [C03:system-key-wrapped-by-the-kms-only] ncalls(EncryptKey) == 1 && ncalls(Encrypt) == 0 && (retis(EncryptKey, 1, 1, nil) ==> keyof(arr(arg(EncryptKey, 1, key))) == sk.secret)
+//@   ensures [C03:stored-record-holds-the-kms-output] ncalls(Store) == 1 && (ret(Store, 1, 0) == ret(Store, 1, 0) ==> arg(Store, 1, envelope).EncryptedKey == ret(EncryptKey, 1, 0) && arg(Store, 1, envelope).ParentKeyMeta == nil && arg(Store, 1, keyID) == sysid(e.partition))
